@@ -587,8 +587,8 @@ pub fn run(op: &str, a: &Args) -> Option<Outcome> {
 // ------------------------------------------------------------------------------------------------
 // boundary grids (deterministic; derived from the case split of the contract clauses)
 
-pub const CONTENTS: [&str; 9] = ["", "a", "ab", "a\u{e9}\u{1d4b3} b", "0123456789", "]]", "a-b-c", "e\u{301}\u{1F600}x", "]x]>"];
-pub const INSERTS: [&str; 11] = ["", "x", "\u{e9}\u{1d4b3}", ">", "<", "&", "-", "--", "]]>", "a]", "-x"];
+pub const CONTENTS: [&str; 10] = ["", "a", "ab", "a\u{e9}\u{1d4b3} b", "0123456789", "]]", "a-b-c", "e\u{301}\u{1F600}x", "]x]>", "x]>y"];
+pub const INSERTS: [&str; 12] = ["", "x", "\u{e9}\u{1d4b3}", ">", "<", "&", "-", "--", "]]>", "a]", "-x", "]"];
 
 fn usize_grid(len: usize) -> Vec<String> {
     let mut v: Vec<String> = vec![];
